@@ -39,6 +39,16 @@ func RepoDir() string {
 }
 
 // WorkDir returns a scratch directory below VerifDir (never /tmp) for one run.
+// OutDir is where evidence/ and replays/ are written: the verification tree itself, or
+// VERIF_OUT_DIR when a self-test (seeded change, mutant, coverage read-back) runs a check
+// against a changed copy of the library and must not overwrite the evidence of the real tree.
+func OutDir() string {
+	if d := os.Getenv("VERIF_OUT_DIR"); d != "" {
+		return d
+	}
+	return VerifDir()
+}
+
 func WorkDir(prop string) string {
 	d := filepath.Join(VerifDir(), ".work", fmt.Sprintf("%s-%d", prop, os.Getpid()))
 	_ = os.MkdirAll(d, 0o755)
@@ -335,7 +345,7 @@ func (r *Run) Finish() int {
 	r.mu.Unlock()
 	sort.Strings(order)
 
-	replayDir := filepath.Join(VerifDir(), "replays", r.Prop)
+	replayDir := filepath.Join(OutDir(), "replays", r.Prop)
 	realViol := 0
 	knownHits := 0
 	printed := 0
@@ -415,7 +425,7 @@ func (r *Run) Finish() int {
 		fmt.Printf("INCONCLUSIVE property=%s reason=evidence-marshal:%v\n", r.Prop, err)
 		return 3
 	}
-	evDir := filepath.Join(VerifDir(), "evidence")
+	evDir := filepath.Join(OutDir(), "evidence")
 	_ = os.MkdirAll(evDir, 0o755)
 	if err := os.WriteFile(filepath.Join(evDir, r.Prop+".json"), append(b, '\n'), 0o644); err != nil {
 		fmt.Printf("INCONCLUSIVE property=%s reason=evidence-write:%v\n", r.Prop, err)
